@@ -4,6 +4,9 @@ import OmbottModel.Lemmas.Cookies
 import OmbottModel.Lemmas.B64
 import OmbottModel.Lemmas.CookieTok
 import OmbottModel.Props.EnvCache
+import OmbottModel.Lemmas.HelpersHeaders
+import OmbottModel.Lemmas.HelpersForms
+import OmbottModel.Lemmas.HelpersAuth
 /-!
 C15 — Cookies round-trip; forged signed cookies are never deserialised.
 Property theorems only; helper lemmas live in `Lemmas/Cookies.lean`.  The library parameter
@@ -460,3 +463,572 @@ example : ∀ op ∈ [Op.read 0 .cookies, .copy 0, .setStr 1 cs!"HTTP_COOKIE" cs
 end NonVacuity
 
 end Ombott.EnvCache
+
+/-! ## the request helper classes behind `Request.headers`, `.cookies`, `.auth`, `.remote_route`, `.is_xhr`
+
+`WSGIHeaderDict`, `CookieDict` (`ombott/request_pkg/helpers.py`) and the small accessors of `props_mixin.py` carry
+the header-borne data C15 is about (the `Cookie` header itself, credentials, forwarded addresses) from the environ to
+the handler.  The functions are the ones the driver runs (`Drv/Helpers.lean`); the tables (`Gen/Helpers.lean`, names
+`hp…`) are regenerated from the live classes on every run. -/
+namespace Ombott.WsgiHeaders
+open Py
+
+/-- **table tie**: the keys shown without `HTTP_`, the prefix, and `_ekey` / `__iter__` of the live class on the probe
+points are what the model computes (so a change of `cgikeys`, of the prefix or of either mapping re-opens this) -/
+theorem header_tables_pinned :
+    Gen.hpCgikeys = ["CONTENT_LENGTH", "CONTENT_TYPE"] ∧ Gen.hpHttpPrefix.toList = httpPrefix ∧
+    (∀ p ∈ Gen.hpEkeyProbes, ekey p.1.toList = p.2.toList) ∧
+    (∀ p ∈ Gen.hpIterProbes, iterName p.1.toList = p.2.map String.toList) := by
+  refine ⟨by decide, by decide +kernel, by decide +kernel, by decide +kernel⟩
+
+/-- **ekey_title_roundtrip**: for every header name made of letters, digits and hyphens, the name iteration lists
+for the environ key `_ekey name` is `name.title()`, and `_ekey` of that listed name is the same key: the view neither
+loses nor invents a header, whatever the case the handler spells the name in. -/
+theorem ekey_title_roundtrip (name : Str) (hn : ∀ c ∈ name, isNameChar c = true) :
+    iterName (ekey name) = some (title name) ∧ ekey (title name) = ekey name := by
+  have hd : dash name = name := dash_of_no_under name (by
+    intro c hc e
+    subst e
+    have := hn _ hc
+    revert this; decide)
+  have h1 := iterName_ekey name
+  have h2 := ekey_title_dash name
+  rw [hd] at h1 h2
+  exact ⟨h1, h2⟩
+
+/-- the CGI ambiguity, stated: a name spelled with underscores reads the same environ entry as the one spelled with
+hyphens (`X_A` and `X-A` are one header to the view), and iteration lists it with hyphens — for every name -/
+theorem ekey_underscore_same_key (name : Str) :
+    ekey (undash name) = ekey name ∧ ekey (dash name) = ekey name ∧
+    iterName (ekey name) = some (title (dash name)) ∧ ekey (title (dash name)) = ekey name := by
+  refine ⟨ekey_congr _ _ ?_, ekey_congr _ _ ?_, iterName_ekey name, ekey_title_dash name⟩
+  · simp only [undash_eq, List.map_map]
+    congr 1
+    apply List.map_congr_left
+    intro c _
+    simp only [Function.comp, unC]
+    split <;> simp_all
+  · rw [undash_dash]
+
+/-- **headers_view_exact**: the mapping the view shows is exactly the environ's `HTTP_*` entries plus the CGI keys:
+(1) `keys()` lists one name per such entry, in environ order, and nothing else (`len` counts them);
+(2) a lookup that succeeds reads such an entry, decoded as Latin-1 when it is bytes, and a lookup fails only with `KeyError`;
+(3) for an environ whose keys are distinct (a `dict`) every header entry written the way a WSGI server writes it
+    (`canonKey`) is read back under the name listed for it, so
+(4) `items()` of an environ all of whose header keys are canonical is the list of those entries. -/
+theorem headers_view_exact (e : Env) :
+    (keys e = (e.filter fun p => isHeaderKey p.1).map (fun p => nameOf p.1) ∧
+      len e = (e.filter fun p => isHeaderKey p.1).length) ∧
+    (∀ n s, getitem e n = .ok s ↔ ∃ v, (ekey n, v) ∈ e ∧ e.get? (ekey n) = some v ∧ isHeaderKey (ekey n) = true ∧ s = touni v) ∧
+    (∀ n x, getitem e n = .error x → x = .keyError ∧ contains e n = false) ∧
+    ((e.map (·.1)).Nodup → ∀ k v, (k, v) ∈ e → canonKey k = true →
+      raw e (nameOf k) = some v ∧ getitem e (nameOf k) = .ok (touni v) ∧ contains e (nameOf k) = true) ∧
+    ((e.map (·.1)).Nodup → (∀ p ∈ e, isHeaderKey p.1 = true → canonKey p.1 = true) →
+      items e = .ok ((e.filter fun p => isHeaderKey p.1).map fun p => (nameOf p.1, touni p.2))) := by
+  have hcanon : (e.map (·.1)).Nodup → ∀ k v, (k, v) ∈ e → canonKey k = true → e.get? (ekey (nameOf k)) = some v := by
+    intro hn k v hm hc
+    rw [ekey_nameOf k hc]
+    exact get?_of_mem e k v hn hm
+  refine ⟨⟨keys_eq e, by unfold len; rw [keys_eq, List.length_map]⟩, ?_, ?_, ?_, ?_⟩
+  · intro n s
+    rw [getitem_ok_iff]
+    constructor
+    · rintro ⟨v, hv, hs⟩
+      exact ⟨v, get?_mem e _ v hv, hv, isHeaderKey_ekey n, hs⟩
+    · rintro ⟨v, _, hv, _, hs⟩
+      exact ⟨v, hv, hs⟩
+  · intro n x hx
+    refine ⟨getitem_error e n x hx, ?_⟩
+    unfold getitem at hx
+    unfold contains
+    cases hg : e.get? (ekey n) with
+    | none => rfl
+    | some v => rw [hg] at hx; cases hx
+  · intro hn k v hm hc
+    have := hcanon hn k v hm hc
+    refine ⟨this, ?_, ?_⟩
+    · unfold getitem; rw [this]
+    · unfold contains; rw [this]; rfl
+  · intro hn hall
+    unfold items
+    rw [keys_eq, List.mapM_map]
+    apply mapM_ok
+    intro p hp
+    have hp' := List.mem_filter.mp hp
+    have hc := hall p hp'.1 (by simpa using hp'.2)
+    simp only [Function.comp, getitem]
+    rw [hcanon hn p.1 p.2 hp'.1 hc]
+    rfl
+
+/-- the outcome of a mutator call as the table spells it -/
+def outcomeName : Except Err Out → String
+  | .ok _ => "ok"
+  | .error e => e.name
+
+/-- the probe calls of `harness/tables/helpers.py` on the environ `{HTTP_X_A: '1', CONTENT_TYPE: 't', REQUEST_METHOD: 'GET'}` -/
+def probeEnv : Env := [(cs!"HTTP_X_A", .str cs!"1"), (cs!"CONTENT_TYPE", .str cs!"t"), (cs!"REQUEST_METHOD", .str cs!"GET")]
+def probeOp : String → Option Op
+  | "setitem-new" => some (.setitem cs!"X-B" cs!"v") | "setitem-old" => some (.setitem cs!"X-A" cs!"v")
+  | "delitem-old" => some (.delitem cs!"X-A") | "delitem-new" => some (.delitem cs!"X-B")
+  | "pop-old" => some (.pop cs!"X-A" none) | "pop-new" => some (.pop cs!"X-B" none)
+  | "pop-new-default" => some (.pop cs!"X-B" (some [])) | "popitem" => some .popitem | "clear" => some .clear
+  | "update" => some (.update [(cs!"X-B", cs!"v")]) | "update-empty" => some (.update [])
+  | "setdefault-old" => some (.setdefault cs!"X-A" cs!"v") | "setdefault-new" => some (.setdefault cs!"X-B" cs!"v")
+  | _ => none
+
+/-- **headers_view_readonly**: `__setitem__` and `__delitem__` raise `TypeError`, and no call sequence of the
+mutators a `MutableMapping` offers (`h[k] = v`, `del h[k]`, `pop`, `popitem`, `clear`, `update`, `setdefault`)
+changes the environ.  A call that does not raise is one that would not have changed a real dict either (`pop` of a
+missing name with a default, `setdefault` of a present name, `update` with nothing, `clear` of a view in which nothing
+readable is listed).  The live class answered the probe calls exactly as the model does, each leaving the environ
+untouched (table tie). -/
+theorem headers_view_readonly (e : Env) :
+    (∀ k v, setitem e k v = (.error .typeError, e)) ∧ (∀ k, delitem e k = (.error .typeError, e)) ∧
+    (∀ ops, (applyOps e ops).2 = e) ∧
+    (∀ op out, (applyOp e op).1 = .ok out →
+      (∃ k d, op = .pop k (some d) ∧ contains e k = false) ∨ (∃ k d, op = .setdefault k d ∧ contains e k = true) ∨
+      op = .update [] ∨ (op = .clear ∧ ∀ k ∈ (keys e).head?, contains e k = false)) ∧
+    (∀ r ∈ Gen.hpReadonlyOps, r.2.2 = true ∧ ∃ op, probeOp r.1 = some op ∧ outcomeName (applyOp probeEnv op).1 = r.2.1) := by
+  refine ⟨fun _ _ => rfl, fun _ => rfl, applyOps_env e, ?_, by decide +kernel⟩
+  intro op out h
+  cases op with
+  | setitem k v => cases h
+  | delitem k => cases h
+  | pop k d =>
+    simp only [applyOp] at h
+    unfold contains
+    unfold getitem at h
+    cases hg : e.get? (ekey k) with
+    | none =>
+      rw [hg] at h
+      cases d with
+      | none => cases h
+      | some s => exact Or.inl ⟨k, s, rfl, by rw [hg]; rfl⟩
+    | some v => rw [hg] at h; cases h
+  | popitem =>
+    simp only [applyOp, popitem] at h
+    split at h
+    · cases h
+    · split at h <;> cases h
+  | clear =>
+    refine Or.inr (Or.inr (Or.inr ⟨rfl, ?_⟩))
+    intro k hk
+    simp only [applyOp, clear, popitem] at h
+    cases hks : keys e with
+    | nil => rw [hks] at hk; cases hk
+    | cons k0 r =>
+      rw [hks] at hk h
+      simp only [List.head?_cons, Option.mem_def, Option.some.injEq] at hk
+      subst hk
+      simp only at h
+      unfold contains
+      unfold getitem at h
+      cases hg : e.get? (ekey k0) with
+      | none => rfl
+      | some v => rw [hg] at h; cases h
+  | update ps =>
+    cases ps with
+    | nil => exact Or.inr (Or.inr (Or.inl rfl))
+    | cons p r => obtain ⟨k, v⟩ := p; cases h
+  | setdefault k d =>
+    simp only [applyOp] at h
+    unfold contains
+    unfold getitem at h
+    cases hg : e.get? (ekey k) with
+    | none => rw [hg] at h; cases h
+    | some v => exact Or.inr (Or.inl ⟨k, d, rfl, by rw [hg]; rfl⟩)
+
+/-- the names the view lists are the names under which the cache-layer model (`Model/EnvCache.lean`,
+`cache_unobservable`) shows the `headers` observable -/
+theorem headers_name_agrees_with_envcache (k : Str) : iterName k = Ombott.EnvCache.headerName k :=
+  iterName_eq_envcache k
+
+end Ombott.WsgiHeaders
+
+namespace Ombott.FormsDict
+open Py Ombott.Cookies
+
+/-- **table tie** (`CookieDict`): the accessors the class body defines, the attribute names normal lookup finds
+(for which `__getattr__` is never asked: they shadow a cookie of the same name), the default `input_encoding` and that
+it names the UTF-8 codec, the factories of `Request`, `None` for a missing attribute.  Adding, removing or renaming an
+accessor re-opens this. -/
+theorem cookiedict_tables_pinned :
+    Gen.hpCookieDictOwn = ["__getattr__", "_decoded", "_fix", "decode", "getunicode", "input_encoding"] ∧
+    Gen.hpCookieInputEncoding = "utf8" ∧ codecOf Gen.hpCookieInputEncoding.toList = some .utf8 ∧
+    Gen.hpFactories = ["FormsDict", "CookieDict", "FormsDict", "CookieDict"] ∧ Gen.hpMissingAttr = ["None", "None"] ∧
+    (∀ n ∈ ["_decoded", "_fix", "decode", "getunicode", "input_encoding", "get", "copy", "keys", "items", "values", "pop",
+      "update", "clear", "__len__", "__class__", "__dict__"], n.toList ∈ cdAttrs) ∧
+    (∀ n ∈ ["sid", "n", "a", "user_id", "session", "token", "getall", "__x__", "__"], n.toList ∉ cdAttrs) := by
+  refine ⟨by decide, by decide, by decide +kernel, by decide, by decide, by decide +kernel, by decide +kernel⟩
+
+/-- **cookiedict_total**: on a `CookieDict` with a known `input_encoding` (every instance the framework creates:
+`cookiedict_tables_pinned`) item access raises nothing but `KeyError`, attribute access nothing but `AttributeError`
+(exactly for dunder names that normal lookup does not find), `get` and `getunicode` with the instance's encoding
+never raise — an undecodable value is the default, `None` for attribute access — and `decode` raises nothing but
+`UnicodeError` (a key or value that is not Latin-1, or not valid in the target codec), `TypeError` (a decoded copy asked
+for another encoding NAME) and, for a codec name that does not exist, `LookupError`. -/
+theorem cookiedict_total (c : CD) (henc : (codecOf c.enc).isSome = true) (name : Str) (d : Option Str) :
+    (∀ x, cdGetitem c name = .error x → x = .keyError) ∧
+    (∃ r, cdGetunicode c name d none = .ok r) ∧
+    (∀ x, cdGetattr c name = .error x → x = .attributeError ∧ isDunder name = true ∧ ¬ name ∈ cdAttrs) ∧
+    (∀ x, cdDecode c none = .error x → x = .unicodeError) ∧
+    (∀ e x, cdDecode c (some e) = .error x → x = .unicodeError ∨ x = .typeError ∨ (codecOf e = none ∧ x = .lookupError)) := by
+  have hknown : ∀ x, ¬ (codecOf c.enc = none ∧ x = HErr.lookupError) := by
+    intro x h; rw [h.1] at henc; cases henc
+  have hgu : ∃ r, cdGetunicode c name d none = .ok r := by
+    unfold cdGetunicode
+    simp only [Option.getD_none]
+    cases hg : cdGetitem c name with
+    | error y =>
+      have : y = .keyError := by
+        unfold cdGetitem at hg; split at hg <;> cases hg; rfl
+      subst this; exact ⟨_, rfl⟩
+    | ok v =>
+      simp only
+      cases hf : fix v c.enc with
+      | ok s => exact ⟨_, rfl⟩
+      | error y =>
+        rcases fix_error v c.enc y hf with rfl | h
+        · exact ⟨_, rfl⟩
+        · exact absurd h (hknown y)
+  refine ⟨?_, hgu, ?_, ?_, ?_⟩
+  · intro x hx
+    unfold cdGetitem at hx; split at hx <;> cases hx; rfl
+  · intro x hx
+    unfold cdGetattr at hx
+    split at hx
+    · cases hx
+    · rename_i hna
+      split at hx
+      · rename_i hd
+        cases hx
+        exact ⟨rfl, hd, fun hm => hna (List.contains_iff_mem.mpr hm)⟩
+      · obtain ⟨r, hr⟩ : ∃ r, cdGetunicode c name none none = .ok r := by
+          have := cookiedict_getunicode_ok c henc name
+          exact this
+        rw [hr] at hx; cases hx
+  · intro x hx
+    unfold cdDecode at hx
+    split at hx
+    · cases hx
+    · simp only [Option.getD_none] at hx
+      cases hgo : decodeGo c.enc c.items [] with
+      | ok items => rw [hgo] at hx; cases hx
+      | error y =>
+        rw [hgo] at hx; cases hx
+        rcases decodeGo_error _ _ _ _ hgo with h | h
+        · exact h
+        · exact absurd h (hknown _)
+  · intro e x hx
+    unfold cdDecode at hx
+    split at hx
+    · simp only at hx
+      split at hx
+      · cases hx; exact Or.inr (Or.inl rfl)
+      · cases hx
+    · simp only [Option.getD_some] at hx
+      cases hgo : decodeGo e c.items [] with
+      | ok items => rw [hgo] at hx; cases hx
+      | error y =>
+        rw [hgo] at hx; cases hx
+        rcases decodeGo_error _ _ _ _ hgo with h | h
+        · exact Or.inl h
+        · exact Or.inr (Or.inr h)
+
+/-- **cookie_attr_roundtrip**: an unsigned ASCII cookie set on a response and returned by the client is read back
+unchanged through every `CookieDict` accessor — item, `get`, `getunicode` (with any default), attribute access — for
+every legal cookie name that is not shadowed by an attribute of the class and is not a dunder name.  (Composes
+`setCookie` → `emit` → the client → the `http.cookies` tokeniser of `Props/C15.lean`'s `plain_roundtrip` with `_fix`.)
+The value may be empty here (unlike `get_cookie`, the dictionary does show an empty cookie).
+Residue, with model witnesses below: a value holding a character in U+0080..U+00FF reads as `None` through
+`getunicode` / attribute access (it is sent octal-escaped, so its Latin-1 view is not UTF-8), the mirror image of the
+recorded finding `C15:plain-cookie:char>=U+0100` (for which attribute access DOES return the original text). -/
+theorem cookie_attr_roundtrip (name v : Str) (hn : LegalName name) (hv : ∀ c ∈ v, c.toNat < 128) (hlen : v.length ≤ 4096)
+    (hattr : ¬ name ∈ cdAttrs) (hd : isDunder name = false) (pk : PkTable) (d : Option Str) :
+    ∃ jar c, setCookie (concreteLib pk) [] name (.text v) [] = .ok jar ∧
+      requestCookies (clientHeader (emit jar)) = .ok c ∧
+      cdGetitem c name = .ok v ∧ cdGet c name d = some v ∧ cdGetunicode c name d none = .ok (some v) ∧
+      cdGetattr c name = .ok (.value (some v)) := by
+  have hv256 : ∀ c ∈ v, c.toNat < 256 := fun c hc => by have := hv c hc; omega
+  refine ⟨_, cdOfPairs [(name, v)], setCookie_plain _ name v hn hlen, ?_, ?_⟩
+  · rw [wire_single _ _ (wire_chars _ _ hn (quote_chars v hv256))]
+    unfold requestCookies
+    rw [parseCookies_single name v hn hv256, Cookies.unquote_quote v hv256]
+    rfl
+  · have hitems : (cdOfPairs [(name, v)]).items = [(name, v)] := rfl
+    have hencd : (cdOfPairs [(name, v)]).enc = Gen.hpCookieInputEncoding.toList := rfl
+    have hgi : cdGetitem (cdOfPairs [(name, v)]) name = .ok v := by
+      unfold cdGetitem; rw [hitems, sget?_single]
+    have hgu : cdGetunicode (cdOfPairs [(name, v)]) name d none = .ok (some v) := by
+      unfold cdGetunicode
+      simp only [Option.getD_none, hgi, hencd]
+      rw [fix_ascii v _ hv (by decide +kernel)]
+    refine ⟨hgi, ?_, hgu, ?_⟩
+    · unfold cdGet; rw [hitems, sget?_single]
+    · unfold cdGetattr
+      have h1 : cdAttrs.contains name = false := by
+        rw [Bool.eq_false_iff]; intro h; exact hattr (List.contains_iff_mem.mp h)
+      have hgu' : cdGetunicode (cdOfPairs [(name, v)]) name none none = .ok (some v) := by
+        unfold cdGetunicode
+        simp only [Option.getD_none, hgi, hencd]
+        rw [fix_ascii v _ hv (by decide +kernel)]
+      simp only [h1, hd, Bool.false_eq_true, if_false, hgu']
+      rfl
+
+end Ombott.FormsDict
+
+namespace Ombott.ReqProps
+open Py
+
+/-- **table tie** (`auth`, `remote_route`, `is_xhr`): the environ keys the accessors read, the scheme spellings `auth`
+accepts on a valid payload (exactly the spellings of `basic` in any case), the token `is_xhr` compares with, and that
+`is_ajax` is `is_xhr` -/
+theorem reqprops_tables_pinned :
+    Gen.hpAuthKeys = ["HTTP_AUTHORIZATION", "REMOTE_USER"] ∧ Gen.hpRouteKeys = ["HTTP_X_FORWARDED_FOR", "REMOTE_ADDR"] ∧
+    Gen.hpXhrKeys = ["HTTP_X_REQUESTED_WITH"] ∧ Gen.hpXhrToken = "xmlhttprequest" ∧ Gen.hpAjaxIsXhr = true ∧
+    (∀ p ∈ Gen.hpAuthSchemes, decide (lower p.1.toList = cs!"basic") = p.2) := by
+  refine ⟨by decide, by decide, by decide, by decide, by decide, by decide +kernel⟩
+
+/-- **auth_roundtrip**: for every user name without `:` and every password (any text, also empty, also with colons),
+`auth` of `Authorization: <scheme><white space>b64(utf8(user:password))` — the scheme `basic` in any letter case,
+any non-empty run of white space — is `(user, password)`, whatever `REMOTE_USER` holds. -/
+theorem auth_roundtrip (scheme sep user password : Str) (remoteUser : Option Str)
+    (hs : lower scheme = cs!"basic") (hsep : sep ≠ []) (hsw : ∀ c ∈ sep, isWsChar c = true) (hu : ':' ∉ user) :
+    auth (some (basicHeader scheme sep user password)) remoteUser = .ok (some (user, some password)) := by
+  unfold auth parseAuth
+  simp only [Option.getD_some]
+  rw [parseAuthTry_basic scheme sep user password hs hsep hsw hu]
+
+/-- what `parse_auth` answers, in one expression: the first two white-space separated pieces, the scheme compared
+case-insensitively, lenient base64, strict UTF-8, split at the first colon — `None` as soon as one step fails -/
+def parseAuthSpec (header : Str) : Option (Str × Str) :=
+  match splitWs1 header with
+  | [method, data] =>
+    if lower method = cs!"basic" then
+      (Crypto.b64decodeLenient (utf8Enc data)).bind fun raw => (utf8Dec raw).bind fun text => splitFirst ':' text
+    else none
+  | _ => none
+
+/-- **auth_malformed_none**: `auth` never raises; the header gives credentials exactly when every step of
+`parseAuthSpec` succeeds, and otherwise the answer is `(REMOTE_USER, None)` for a non-empty `REMOTE_USER`, else `None`.
+In particular `None` for: no second piece (`''`, `'Basic'`, `'Basic  '`), another scheme, a payload that ends
+inside a base64 quad (`binascii.Error`), decoded bytes that are not UTF-8 (`UnicodeDecodeError`), no colon in the
+decoded text — each of these is a `ValueError` caught inside `parse_auth`. -/
+theorem auth_malformed_none (authorization remoteUser : Option Str) :
+    (∀ header, parseAuth header = .ok (parseAuthSpec header)) ∧
+    (∀ e : AErr, e.caught = true) ∧
+    auth authorization remoteUser = .ok (match parseAuthSpec (authorization.getD []) with
+      | some (u, p) => some (u, some p)
+      | none => match remoteUser with
+        | some (c :: r) => some (c :: r, none)
+        | _ => none) := by
+  have hp : ∀ header, parseAuth header = .ok (parseAuthSpec header) := by
+    intro header
+    unfold parseAuth parseAuthTry parseAuthSpec
+    cases splitWs1 header with
+    | nil => rfl
+    | cons method t =>
+      cases t with
+      | nil => rfl
+      | cons data t2 =>
+        cases t2 with
+        | cons _ _ => rfl
+        | nil =>
+          simp only
+          by_cases hb : lower method = cs!"basic"
+          · simp only [hb, if_true]
+            cases h1 : Crypto.b64decodeLenient (utf8Enc data) with
+            | none => rfl
+            | some raw =>
+              simp only [Option.bind_some]
+              cases h2 : utf8Dec raw with
+              | none => rfl
+              | some text =>
+                simp only [Option.bind_some]
+                cases h3 : splitFirst ':' text with
+                | none => rfl
+                | some up => obtain ⟨u, p⟩ := up; rfl
+          · simp only [hb, if_false]
+  refine ⟨hp, fun e => by cases e <;> rfl, ?_⟩
+  unfold auth
+  rw [hp]
+  cases parseAuthSpec (authorization.getD []) with
+  | none =>
+    cases remoteUser with
+    | none => rfl
+    | some r => cases r <;> rfl
+  | some up => obtain ⟨u, p⟩ := up; rfl
+
+/-- **remote_route_split**: `remote_route` of an `X-Forwarded-For` header made of addresses joined by a comma and any
+white space (`', '.join(ips)` for `sp = " "`) is the list of those addresses, and `remote_addr` is the first (the
+client), whatever `REMOTE_ADDR` holds; for every non-empty list of addresses free of commas and of surrounding white
+space whose joined text is not empty.  Without the header (or with an empty one) the route is `[REMOTE_ADDR]`, or
+`[]` when that is missing or empty too, and `remote_addr` is `REMOTE_ADDR` / `None`. -/
+theorem remote_route_split (sp : Str) (hsp : ∀ c ∈ sp, isWsChar c = true ∧ c ≠ ',') (ips : List Str) (hne : ips ≠ [])
+    (hip : ∀ ip ∈ ips, ',' ∉ ip ∧ strip ip = ip) (hj : joinCommaSp sp ips ≠ []) (remote : Option Str) :
+    remoteRoute (some (joinCommaSp sp ips)) remote = ips ∧ remoteAddr (some (joinCommaSp sp ips)) remote = ips.head? ∧
+    (∀ ra, ra ≠ [] → remoteRoute none (some ra) = [ra] ∧ remoteRoute (some []) (some ra) = [ra] ∧
+      remoteAddr none (some ra) = some ra) ∧
+    remoteRoute none none = [] ∧ remoteRoute none (some []) = [] ∧ remoteAddr none none = none := by
+  have hr : remoteRoute (some (joinCommaSp sp ips)) remote = ips := by
+    unfold remoteRoute
+    obtain ⟨c, r, hcr⟩ := List.exists_cons_of_ne_nil hj
+    rw [hcr]
+    simp only
+    rw [← hcr]
+    have := route_pieces sp hsp ips hne hip [] (by intro c hc; cases hc)
+    simpa using this
+  refine ⟨hr, by unfold remoteAddr; rw [hr], ?_, rfl, rfl, rfl⟩
+  intro ra hra
+  obtain ⟨c, r, rfl⟩ := List.exists_cons_of_ne_nil hra
+  exact ⟨rfl, rfl, rfl⟩
+
+/-- the `remote_route` the cache-layer model (`Model/EnvCache.lean`) caches is this function of the two environ entries -/
+theorem remote_route_agrees_with_envcache (e : Ombott.EnvCache.Env) :
+    Ombott.EnvCache.remoteRouteOf e =
+      .strs (remoteRoute (e.str? cs!"HTTP_X_FORWARDED_FOR") (e.str? cs!"REMOTE_ADDR")) := by
+  unfold Ombott.EnvCache.remoteRouteOf remoteRoute Ombott.EnvCache.truthy
+  cases h1 : e.str? cs!"HTTP_X_FORWARDED_FOR" with
+  | none =>
+    simp only
+    cases h2 : e.str? cs!"REMOTE_ADDR" with
+    | none => rfl
+    | some r => cases r <;> rfl
+  | some p =>
+    cases p with
+    | nil =>
+      simp only [List.isEmpty_nil, if_true]
+      cases h2 : e.str? cs!"REMOTE_ADDR" with
+      | none => rfl
+      | some r => cases r <;> rfl
+    | cons c r => rfl
+
+/-- **is_xhr_spec**: `is_xhr` is true exactly when `X-Requested-With`, ASCII-lower-cased, is `xmlhttprequest`; a missing
+header is false; `is_ajax` is the same function -/
+theorem is_xhr_spec (v : Option Str) :
+    (isXhr v = true ↔ ∃ s, v = some s ∧ lower s = cs!"xmlhttprequest") ∧ isAjax v = isXhr v := by
+  refine ⟨?_, rfl⟩
+  have ht : xhrToken = cs!"xmlhttprequest" := by decide +kernel
+  unfold isXhr
+  rw [ht]
+  cases v with
+  | none => simp [lower]
+  | some s => simp
+
+end Ombott.ReqProps
+
+/-! ### non-vacuity of the helper theorems, and the witnesses of their documented residue -/
+namespace Ombott.WsgiHeaders
+open Py
+section NonVacuity
+
+/-- `ekey_title_roundtrip`: a lower-case name with digits and hyphens meets the hypothesis; its key, and what is listed -/
+example : ∀ c ∈ cs!"x-forwarded-4", isNameChar c = true := by decide
+example : ekey cs!"x-forwarded-4" = cs!"HTTP_X_FORWARDED_4" ∧ iterName (ekey cs!"x-forwarded-4") = some cs!"X-Forwarded-4" ∧
+    ekey cs!"content-TYPE" = cs!"CONTENT_TYPE" ∧ iterName cs!"CONTENT_TYPE" = some cs!"Content-Type" := by decide +kernel
+/-- the hypothesis matters for the FORM of the listed name only: with an underscore the same key is read, the listed
+name has the hyphen -/
+example : ekey cs!"X_A" = ekey cs!"x-a" ∧ iterName (ekey cs!"X_A") = some cs!"X-A" ∧ title cs!"X_A" = cs!"X_A" := by decide +kernel
+
+def exEnv : Env := [(cs!"REQUEST_METHOD", .str cs!"GET"), (cs!"HTTP_X_A", .str cs!"1"), (cs!"CONTENT_TYPE", .str cs!"t"),
+  (cs!"HTTP_HOST", .bytes [104, 233]), (cs!"http_x_b", .str cs!"noise"), (cs!"X_A", .str cs!"noise")]
+
+/-- `headers_view_exact` (3), (4): an environ as a server builds it has distinct keys and canonical header keys … -/
+example : (exEnv.map (·.1)).Nodup ∧ ∀ p ∈ exEnv, isHeaderKey p.1 = true → canonKey p.1 = true := by decide +kernel
+/-- … and this is what the view shows of it (a bytes value decoded as Latin-1, the noise keys invisible) -/
+example : items exEnv = .ok [(cs!"X-A", cs!"1"), (cs!"Content-Type", cs!"t"), (cs!"Host", cs!"hé")] ∧ len exEnv = 3 ∧
+    contains exEnv cs!"x_a" = true ∧ contains exEnv cs!"Request-Method" = false := by decide +kernel
+/-- **residue** (outside every property text; environ keys no WSGI server produces): a lower-case or hyphenated tail
+after `HTTP_` is listed but cannot be read back, and `HTTP_CONTENT_TYPE` is listed as a second `Content-Type` that reads
+the CGI key's value — `canonKey` is exactly what excludes them -/
+example : canonKey cs!"HTTP_x_b" = false ∧ canonKey cs!"HTTP_X-C" = false ∧ canonKey cs!"HTTP_CONTENT_TYPE" = false := by
+  decide +kernel
+example : keys [(cs!"HTTP_x_b", .str cs!"2")] = [cs!"X-B"] ∧ items [(cs!"HTTP_x_b", .str cs!"2")] = .error .keyError ∧
+    keys [(cs!"CONTENT_TYPE", .str cs!"t"), (cs!"HTTP_CONTENT_TYPE", .str cs!"u")] = [cs!"Content-Type", cs!"Content-Type"] ∧
+    items [(cs!"CONTENT_TYPE", .str cs!"t"), (cs!"HTTP_CONTENT_TYPE", .str cs!"u")] =
+      .ok [(cs!"Content-Type", cs!"t"), (cs!"Content-Type", cs!"t")] := by decide +kernel
+/-- `headers_view_readonly`: the calls that do not raise, on a concrete view -/
+example : (applyOps exEnv [.setitem cs!"X-New" cs!"v", .pop cs!"X-A" none, .pop cs!"Nope" (some cs!"d"), .clear,
+      .setdefault cs!"x-a" cs!"z", .update [], .popitem]).1 =
+    [.error .typeError, .error .typeError, .ok (.str cs!"d"), .error .typeError, .ok (.str cs!"1"), .ok .none,
+     .error .typeError] := by decide +kernel
+
+end NonVacuity
+end Ombott.WsgiHeaders
+
+namespace Ombott.FormsDict
+open Py Ombott.Cookies
+section NonVacuity
+
+/-- `cookiedict_total`: the hypothesis holds for every dictionary `Request.cookies` creates (default encoding) -/
+example : (codecOf (cdOfPairs [(cs!"a", cs!"Ã©")]).enc).isSome = true := by decide +kernel
+/-- … a Latin-1 view of UTF-8 is recoded, a value that is not UTF-8 reads as the default, a dunder name raises,
+`decode('utf-8')` of a copy decoded as `'utf8'` is a `TypeError` (the NAMES are compared) -/
+example : cdGetattr (cdOfPairs [(cs!"a", cs!"Ã©")]) cs!"a" = .ok (.value (some cs!"é")) ∧
+    cdGetattr (cdOfPairs [(cs!"a", cs!"é")]) cs!"a" = .ok (.value none) ∧
+    cdGetattr (cdOfPairs [(cs!"keys", cs!"v")]) cs!"keys" = .ok (.classAttr cs!"keys") ∧
+    cdGetattr (cdOfPairs []) cs!"__x__" = .error .attributeError ∧
+    ((cdDecode (cdOfPairs [(cs!"a", cs!"Ã©")]) none).toOption.map fun c => (c.items, cdDecode c (some cs!"utf-8"))) =
+      some ([(cs!"a", cs!"é")], .error .typeError) := by decide +kernel
+/-- **residue**: `getunicode(encoding='nonsense')` lets the `LookupError` through; attribute access on a DECODED copy
+decodes a second time (`cookies.decode().a` is `None` for `é`) -/
+example : cdGetunicode (cdOfPairs [(cs!"a", cs!"v")]) cs!"a" none (some cs!"nonsense") = .error .lookupError ∧
+    ((cdDecode (cdOfPairs [(cs!"a", cs!"Ã©")]) none).toOption.map fun c => cdGetattr c cs!"a") = some (.ok (.value none)) := by
+  decide +kernel
+
+/-- set → emit → client → `Request.cookies` → attribute access, as one expression -/
+def attrAfterRoundtrip (name v : Str) : Option (Except HErr (Attr Str)) :=
+  (setCookie exLib [] name (.text v) []).toOption.bind fun jar =>
+    (requestCookies (clientHeader (emit jar))).toOption.map fun c => cdGetattr c name
+
+/-- `cookie_attr_roundtrip`: hypotheses met by a value with separators and quotes -/
+example : LegalName cs!"sid" ∧ (∀ c ∈ cs!"a;b \"q\" =", c.toNat < 128) ∧ ¬ cs!"sid" ∈ cdAttrs ∧ isDunder cs!"sid" = false := by
+  decide +kernel
+example : attrAfterRoundtrip cs!"sid" cs!"a;b \"q\" =" = some (.ok (.value (some cs!"a;b \"q\" ="))) := by decide +kernel
+/-- **witnesses of the residue** next to the recorded finding `C15:plain-cookie:char>=U+0100`: `é` (sent as `"\351"`)
+reads as `None` through attribute access although `get_cookie` returns it; `€` (sent as the Latin-1 view of its UTF-8)
+reads back as `€` through attribute access although `get_cookie` returns mojibake; mixed, `None` -/
+example : attrAfterRoundtrip cs!"n" cs!"é" = some (.ok (.value none)) ∧
+    attrAfterRoundtrip cs!"n" cs!"€" = some (.ok (.value (some cs!"€"))) ∧
+    attrAfterRoundtrip cs!"n" cs!"é€" = some (.ok (.value none)) := by decide +kernel
+/-- a cookie named like a `dict` method is shadowed by the method -/
+example : attrAfterRoundtrip cs!"keys" cs!"v" = some (.ok (.classAttr cs!"keys")) := by decide +kernel
+
+end NonVacuity
+end Ombott.FormsDict
+
+namespace Ombott.ReqProps
+open Py
+section NonVacuity
+
+/-- `auth_roundtrip`: hypotheses met by a mixed-case scheme, a tab-and-space separator, an empty user … -/
+example : lower cs!"bAsIC" = cs!"basic" ∧ (∀ c ∈ [' ', '\t', '\u00a0'], isWsChar c = true) ∧ ':' ∉ cs!"Aladdin" ∧ ':' ∉ ([] : Str) := by
+  decide
+/-- … and the header and answer for `Aladdin` / `open:sesame` (a colon in the password), non-ASCII credentials -/
+example : basicHeader cs!"Basic" cs!" " cs!"Aladdin" cs!"open:sesame" = cs!"Basic QWxhZGRpbjpvcGVuOnNlc2FtZQ==" ∧
+    auth (some cs!"Basic QWxhZGRpbjpvcGVuOnNlc2FtZQ==") none = .ok (some (cs!"Aladdin", some cs!"open:sesame")) ∧
+    auth (some (basicHeader cs!"bAsIC" [' ', '\t'] cs!"é" cs!"€")) (some cs!"ruser") = .ok (some (cs!"é", some cs!"€")) := by
+  decide +kernel
+/-- `auth_malformed_none`: one token; another scheme; `ABC` (no colon); a payload ending inside a quad; bytes that are not
+UTF-8 (`/w==` is `0xFF`); padding missing (`dTpw` is fine, `dTp` is not); foreign characters are skipped by the lenient
+decoder (`d.T-p w` reads as `dTpw` = `u:p`); and the `REMOTE_USER` fallback -/
+example : auth (some cs!"Basic") none = .ok none ∧ auth (some cs!"Digest dTpw") none = .ok none ∧
+    auth (some cs!"Basic QUJD") none = .ok none := by decide +kernel
+example : auth (some cs!"Basic Q") none = .ok none ∧ auth (some cs!"Basic /w==") none = .ok none ∧
+    auth (some cs!"Basic dTp") none = .ok none := by decide +kernel
+example : auth (some cs!"Basic d.T-p w") none = .ok (some (cs!"u", some cs!"p")) ∧
+    auth (some cs!"Basic QUJD") (some cs!"ruser") = .ok (some (cs!"ruser", none)) := by decide +kernel
+example : auth none (some []) = .ok none ∧ auth none none = .ok none := by decide +kernel
+/-- `remote_route_split`: hypotheses met by two addresses, one of them IPv6 -/
+example : (∀ c ∈ [' '], isWsChar c = true ∧ c ≠ ',') ∧
+    (∀ ip ∈ [cs!"1.1.1.1", cs!"2001:db8::1"], ',' ∉ ip ∧ strip ip = ip) ∧ joinCommaSp [' '] [cs!"1.1.1.1", cs!"2001:db8::1"] ≠ [] := by
+  decide +kernel
+/-- **residue**: empty entries are kept (`'a,,b'`), an entry is not validated as an address -/
+example : remoteRoute (some cs!"a,, b ,") (some cs!"9.9.9.9") = [cs!"a", [], cs!"b", []] ∧
+    remoteAddr (some cs!" , x") none = some [] := by decide +kernel
+/-- `is_xhr_spec` -/
+example : isXhr (some cs!"XMLHttpRequest") = true ∧ isXhr (some cs!"XMLHttpRequest ") = false ∧ isXhr none = false := by
+  decide +kernel
+
+end NonVacuity
+end Ombott.ReqProps
